@@ -141,3 +141,23 @@ claim("C07", "other", "who-may-call / typestate rules on the stream cache, domin
 for pid in ["C01", "C02", "C03", "C04", "C05", "C06", "C07", "C08", "C09", "C10", "C11", "C12", "C13", "C14", "C15", "C16", "C17", "C18", "C20"]:
     if pid not in CLAIMS:
         na(pid, "static rule designed (DESIGN.md section 5) but its checker is not built yet in this revision; not claimed until it runs silent on the tree and fires on control mutants")
+
+# completeness clauses added after rounds 6/7 (DESIGN.md 10.9): for each "when X, the answer is Y" rule, the decisions that lead to the
+# weaker answer (an early None, an error, an absent table, a skipped arm) are enumerated and each must be one the property names
+EXTRA = {
+    "C04": " Every error outcome carries one of the three causes (offset + width overflows, the buffer has no such range, slice-to-array conversion): reads that fit are not refused.",
+    "C05": " Completeness: no failure outcome of the four table locators is reachable with the offset field 0 (an absent table is never refused); `no string table` is answered only for e_shstrndx == SHN_UNDEF or absent section headers; every in-crate caller of the nine validating functions propagates their failure (12 call sites).",
+    "C07": " C13's wiring rule is run for the symbol_version_table pair (same sections, chosen the same way, in both parsers).",
+    "C09": " C02's decode-size rule (every in-crate ParseAt advances the cursor by size_for(class) on success) is run as part of this check.",
+    "C11": " Completeness: every decision ahead of the chain walk that by-passes it is one of the enumerated reasons (no buckets, no bloom words, a clear bloom bit, bucket below symoffset) or a failed read; every trip round the walk compares the entry's name unless its hash differs; the constructor refuses bytes only because the declared layout does not fit.",
+    "C12": " Completeness: the chain walk is by-passed only for an empty bucket array or a failed read; every trip round the walk compares the entry's name; the constructor refuses bytes only because the declared layout does not fit.",
+    "C13": " Completeness: Ok(None) of the two queries only for `table absent` / `search exhausted`; the builders by-pass the construction only for no section headers / no VERSYM section / a failed read; each record iterator ends only on a used-up count, empty data or an undecodable record; every in-crate iterator of the module defines next() only.",
+    "C14": " Completeness: Note::parse_at refuses a record only because its header / typed content cannot be read, a size does not convert or overflows, a range lies outside the data, or align == 0; NoteIterator defines next() only.",
+    "C15": " Completeness: BadOffset only on paths whose facts imply that the offset lies outside the table.",
+    "C18": " The I/O-protocol ordering rule (nothing is cached before the range check and the read succeeded) is run for the stream parser, so a refused read leaves no buffer a later query could answer from.",
+    "C20": " Completeness: each arm of the one-pass discovery is taken on sh_type alone (no further condition on the header); the by-name search is by-passed only on what section_headers_with_strtab() returned.",
+}
+for _pid, _txt in EXTRA.items():
+    if _pid in CLAIMS:
+        _c = CLAIMS[_pid]
+        CLAIMS[_pid] = (_c[0], _c[1], _c[2] + _txt, _c[3], _c[4])
